@@ -326,6 +326,16 @@ def opaque_setattr(ex, base, attr, v, node):
 
 
 def opaque_getitem(ex, base, idx, node):
+    if base.cls == 'NocaseDict':
+        spec = ex.class_specs.get('NocaseDict') or {}
+        vk = spec.get('__value__', 'ref')
+        idx = ex.res(idx)
+        if not isinstance(idx, VStr):
+            ex.limit('NocaseDict key is not a string', node)
+        ex.used_assumptions.add('A-CIMOBJ: NocaseDict[key] for a key obtained from the same object does not raise')
+        f = z3.Function('nd_get', RefSort, z3.StringSort(), kind_sort(vk))
+        lower = z3.Function('str_lower', z3.StringSort(), z3.StringSort())
+        return ex.unflat(f(base.t, lower(idx.t)), vk)
     if base.cls:
         info = ex.find_class(base.cls)
         if info is not None and info.find_method('__getitem__'):
@@ -466,6 +476,12 @@ def make_iter(ex, itv, node):
             return map_iter(ex, itv, c, 'keys', node)
     if isinstance(itv, VIter):
         return itv.n, itv.elem
+    if isinstance(itv, VOpaque) and itv.cls:
+        spec = ex.class_specs.get(itv.cls) or {}
+        k = spec.get('__iter__')
+        if k is not None:
+            seq = z3.Function(f'iter_{itv.cls}', RefSort, z3.SeqSort(kind_sort(k)))(itv.t)
+            return z3.Length(seq), (lambda i: ex.unflat(seq[i], k))
     if isinstance(itv, VStr):
         t = itv.t
         return z3.Length(t), (lambda i: VStr(z3.SubString(t, i, 1)))
